@@ -111,7 +111,11 @@ Definition mismatches_C09 := mism false pi_writes.    Definition propfail_C09 :=
 Definition mismatches_C10 := mism false pi_removal.
 Definition propfail_C10 := pfail (fun x calls => check_C10_group x calls && check_C10_reuse x calls).
 Definition mismatches_C11 := mism true pi_writes.     Definition propfail_C11 := pfail check_C11_group.
-Definition mismatches_C12 := mism false pi_writes.         Definition propfail_C12 := pfail check_C12_group.
+Definition mismatches_C12 := mism false pi_writes.
+(* C12 on an observed scan: every call stays inside its group; and the scan was not cut short by a panic (which skips every
+   later group) *)
+Definition propfail_C12 (cs : list scan_case) : list nat :=
+  indices_where (fun c => negb (for_groups check_C12_group (sc_snap c) (obs_calls c)) || (sc_out c =? 4)) cs 0.
 Definition mismatches_C15 := mism false pi_updates.   Definition propfail_C15 := pfail check_C15_group.
 Definition mismatches_C19 := mism false pi_removal.
 (* C19 on an observed scan: the journal checker, and: when the reaper's request meets a node that is no member of the cloud
